@@ -65,18 +65,10 @@ CULPRITS = ["del_var_path", "var_path_assign", "map_keys", "map_values", "filter
 
 
 def classify(small, where=""):
-    kinds = fc.interesting_kinds(small)
+    c = fc.cause(small)
     if where.startswith("constant_decision"):
-        cul = [c for c in CULPRITS if c in kinds]
-        if any(c in ("map_keys", "map_values", "filter", "for_each", "closure") for c in cul):
-            return "stale_constant:closure"
-        return "infallible_division_failed:%s" % (cul[0] if cul else "operand_side_effect")
-    cul = [c for c in CULPRITS if c in kinds]
-    if "closure" in cul and len(cul) > 1:
-        cul.remove("closure")
-    if any(c in ("map_keys", "map_values", "filter", "for_each", "closure") for c in cul):
-        return "stale_constant:closure"
-    return "stale_constant:%s" % (cul[0] if cul else "plain")
+        return "infallible_division_failed:%s" % ("operand_side_effect" if c in ("plain", "error_path", "if") else c)
+    return "stale_constant:%s" % c
 
 
 def run_case(ctx, case):
